@@ -1004,21 +1004,21 @@ package astits
 //@   ensures [C20,C07] new: result != nil && fresh(result) && result.programMap == programMap && result.b != nil && fresh(result.b) && len(result.b) == 0
 
 // Readers (assumed, per the io documentation). rdPos(r) counts the bytes consumed from r, rdFail(r) the calls on r
-// that returned an error; both are ghost state indexed by the reader object, so a reader that is also an
+// that returned an error other than the end-of-stream conditions io.EOF / io.ErrUnexpectedEOF; both are ghost state indexed by the reader object, so a reader that is also an
 // io.Seeker shares them. Read may return fewer bytes than asked for without an error; ReadFull may not.
 //@ extern (io.Reader).Read
 //@   modifies rdPos(recv), rdFail(recv), elems(p)
 //@   ensures [C08,C18,C20,C03] doc: 0 <= n && n <= len(p) && rdPos(recv) == old(rdPos(recv)) + n
-//@   ensures [C08,C18,C20,C03] fail: (err != nil) == (rdFail(recv) != old(rdFail(recv))) && rdFail(recv) >= old(rdFail(recv))
+//@   ensures [C08,C18,C20,C03] fail: (err != nil && err != io_EOF && err != io_ErrUnexpectedEOF) == (rdFail(recv) != old(rdFail(recv))) && rdFail(recv) >= old(rdFail(recv))
 //@ extern io.ReadFull
 //@   modifies rdPos(r), rdFail(r), rdEnded(r), elems(buf)
 //@   ensures [C08,C18,C20,C03] doc: 0 <= n && n <= len(buf) && rdPos(r) == old(rdPos(r)) + n && (err == nil ==> n == len(buf))
 //@   ensures [C08,C18,C20,C03] eof: (err == io_EOF || err == io_ErrUnexpectedEOF ==> rdEnded(r) != 0) && (err == nil ==> rdEnded(r) == old(rdEnded(r)))
-//@   ensures [C08,C18,C20,C03] fail: (err != nil) == (rdFail(r) != old(rdFail(r))) && rdFail(r) >= old(rdFail(r))
+//@   ensures [C08,C18,C20,C03] fail: (err != nil && err != io_EOF && err != io_ErrUnexpectedEOF) == (rdFail(r) != old(rdFail(r))) && rdFail(r) >= old(rdFail(r))
 //@ extern io.ReadAtLeast
 //@   modifies rdPos(r), rdFail(r), elems(buf)
 //@   ensures [C08,C18,C20,C03] doc: 0 <= n && n <= len(buf) && rdPos(r) == old(rdPos(r)) + n && (err == nil ==> n >= min)
-//@   ensures [C08,C18,C20,C03] fail: (err != nil) == (rdFail(r) != old(rdFail(r))) && rdFail(r) >= old(rdFail(r))
+//@   ensures [C08,C18,C20,C03] fail: (err != nil && err != io_EOF && err != io_ErrUnexpectedEOF) == (rdFail(r) != old(rdFail(r))) && rdFail(r) >= old(rdFail(r))
 // bufio.Reader.Peek consumes nothing.
 //@ extern (*bufio.Reader).Peek
 //@   ensures [C08,C18,C20,C03] doc: 0 <= len(result0) && len(result0) <= n && (result1 == nil ==> len(result0) == n) && allocated(result0)
